@@ -27,7 +27,7 @@ def gen_layer(rnd, length_units="um", gamma=None, screening=False):
         lam_um = xi_um * rnd.choice([4.0, 8.0])
     f = LEN_FACTOR[length_units]
     if gamma is None:
-        gamma = rnd.choice([0.0, 0.1, 1.0, 10.0])
+        gamma = rnd.choice([0.0, 1e-4, 1e-3, 0.1, 1.0, 10.0])
     return {
         "xi": r3(xi_um * f),
         "lam": r3(lam_um * f),
@@ -88,7 +88,7 @@ def gen_holes(rnd, film, n=None):
     return holes
 
 
-def gen_terminals(rnd, film, n):
+def gen_terminals(rnd, film, n, overlap=False):
     """n terminals on distinct sides, spans jittered so that no boundary point sits on a
     terminal polygon's outline."""
     if n == 0:
@@ -109,6 +109,13 @@ def gen_terminals(rnd, film, n):
             lo, hi = 0.25 + rnd.uniform(0.011, 0.019), 0.75 - rnd.uniform(0.011, 0.019)
         depth = 0.3 if film["kind"] == "box" else 0.6
         out.append({"name": TERMINAL_NAMES[i], "side": sides[i], "span": [r3(lo), r3(hi)], "depth": depth})
+    if overlap and n >= 3 and film["kind"] == "box":
+        # the last terminal shares part of the first terminal's side: boundary sites in both polygons
+        a = out[0]["span"]
+        mid = 0.5 * (a[0] + a[1])
+        out[0]["span"] = [a[0], r3(mid + 0.12 + rnd.uniform(0.0, 0.01))]
+        out[-1]["side"] = out[0]["side"]
+        out[-1]["span"] = [r3(mid - 0.12 - rnd.uniform(0.0, 0.01)), a[1]]
     return out
 
 
@@ -131,7 +138,7 @@ def gen_probes(rnd, film, holes, n):
     return pts
 
 
-def gen_device(rnd, size="small", n_terminals=None, n_probes=None, n_holes=None, length_units=None, gamma=None, screening=False):
+def gen_device(rnd, size="small", n_terminals=None, n_probes=None, n_holes=None, length_units=None, gamma=None, screening=False, overlap=False):
     lu = length_units or rnd.choice(UNIT_LEN)
     film = gen_film(rnd, size)
     holes = gen_holes(rnd, film, n_holes)
@@ -150,7 +157,7 @@ def gen_device(rnd, size="small", n_terminals=None, n_probes=None, n_holes=None,
         "layer": gen_layer(rnd, lu, gamma=gamma, screening=screening),
         "film": film,
         "holes": holes,
-        "terminals": gen_terminals(rnd, film, n_terminals),
+        "terminals": gen_terminals(rnd, film, n_terminals, overlap=overlap),
         "probes": gen_probes(rnd, film, holes, n_probes),
         "mesh": mesh,
     }
@@ -304,6 +311,7 @@ def gen_physics(rnd, **p):
         length_units=lu,
         gamma=p.get("gamma"),
         screening=screening,
+        overlap=(rnd.random() < p.get("p_overlap", 0.0)),
     )
     xi_um = dev["layer"]["xi"] / LEN_FACTOR[lu]
     adaptive = p["adaptive"] if "adaptive" in p else (rnd.random() < 0.5)
